@@ -178,6 +178,8 @@ def setup(concepts, spec):
     nm = concepts.lattice_members.Concept
     attach.attach(nm, 'upset', SetMonitor('upset', True, cap))
     attach.attach(nm, 'downset', SetMonitor('downset', False, cap))
+    common.attach_overrides(concepts, nm, ['upset'], lambda: SetMonitor('upset', True, cap))
+    common.attach_overrides(concepts, nm, ['downset'], lambda: SetMonitor('downset', False, cap))
     nl = concepts.lattices.Lattice
     attach.attach(nl, 'upset_union', UnionMonitor('upset_union', True, cap))
     attach.attach(nl, 'downset_union', UnionMonitor('downset_union', False, cap))
